@@ -21,7 +21,7 @@ import (
 	"golang.org/x/tools/go/packages"
 )
 
-const Version = "instr-v5"
+const Version = "instr-v6"
 
 const modPath = "github.com/robfig/soy"
 
@@ -91,6 +91,7 @@ type rewriter struct {
 	pkg    *types.Package
 	rep    *Report
 	n      int
+	selN   int
 	failed error
 }
 
@@ -131,6 +132,98 @@ func (r *rewriter) isMap(e ast.Expr) bool {
 	return ok
 }
 
+// foreignChan reports whether the channel expression is a field of a value whose type is declared
+// outside the repository (e.g. fsnotify's Watcher.Events): such channels are fed by goroutines
+// the scheduler does not own and stay native.
+func (r *rewriter) foreignChan(e ast.Expr) bool {
+	sel, ok := e.(*ast.SelectorExpr)
+	if !ok {
+		return false
+	}
+	t := r.info.TypeOf(sel.X)
+	if t == nil {
+		return false
+	}
+	if p, ok := t.Underlying().(*types.Pointer); ok {
+		t = p.Elem()
+	}
+	if n, ok := t.(*types.Named); ok && n.Obj().Pkg() != nil {
+		return !strings.HasPrefix(n.Obj().Pkg().Path(), modPath)
+	}
+	return false
+}
+
+// rewriteSelect turns a select statement into a call of vrt.Select followed by a switch on the
+// index of the clause that proceeded. It returns nil (statement stays native) if a clause
+// communicates on a foreign channel or has a form the rewrite does not know.
+func (r *rewriter) rewriteSelect(n *ast.SelectStmt) ast.Stmt {
+	r.selN++
+	iv, vv, okv := fmt.Sprintf("sel__i%d", r.selN), fmt.Sprintf("sel__v%d", r.selN), fmt.Sprintf("sel__ok%d", r.selN)
+	hasDefault := "false"
+	var args []ast.Expr
+	var clauses []ast.Stmt
+	for _, st := range n.Body.List {
+		cc := st.(*ast.CommClause)
+		if cc.Comm == nil {
+			hasDefault = "true"
+			clauses = append(clauses, &ast.CaseClause{Body: cc.Body})
+			continue
+		}
+		idx := len(args)
+		var pre []ast.Stmt
+		recvOf := func(e ast.Expr) ast.Expr {
+			if u, ok := e.(*ast.UnaryExpr); ok && u.Op == token.ARROW {
+				return u.X
+			}
+			if p, ok := e.(*ast.ParenExpr); ok {
+				if u, ok := p.X.(*ast.UnaryExpr); ok && u.Op == token.ARROW {
+					return u.X
+				}
+			}
+			return nil
+		}
+		switch cm := cc.Comm.(type) {
+		case *ast.SendStmt:
+			if r.foreignChan(cm.Chan) {
+				return nil
+			}
+			args = append(args, vrtCall("CaseSend", cm.Chan, cm.Value))
+		case *ast.ExprStmt:
+			ch := recvOf(cm.X)
+			if ch == nil || r.foreignChan(ch) {
+				return nil
+			}
+			args = append(args, vrtCall("CaseRecv", ch))
+		case *ast.AssignStmt:
+			if len(cm.Rhs) != 1 || len(cm.Lhs) < 1 || len(cm.Lhs) > 2 {
+				return nil
+			}
+			ch := recvOf(cm.Rhs[0])
+			if ch == nil || r.foreignChan(ch) {
+				return nil
+			}
+			args = append(args, vrtCall("CaseRecv", ch))
+			rhs := []ast.Expr{vrtCall("SelVal", ch, ast.NewIdent(vv))}
+			if len(cm.Lhs) == 2 {
+				rhs = append(rhs, ast.NewIdent(okv))
+			}
+			pre = append(pre, &ast.AssignStmt{Lhs: cm.Lhs, Tok: cm.Tok, Rhs: rhs})
+		default:
+			return nil
+		}
+		clauses = append(clauses, &ast.CaseClause{
+			List: []ast.Expr{&ast.BasicLit{Kind: token.INT, Value: fmt.Sprint(idx)}},
+			Body: append(pre, cc.Body...),
+		})
+	}
+	call := vrtCall("Select", append([]ast.Expr{ast.NewIdent(hasDefault)}, args...)...)
+	return &ast.BlockStmt{List: []ast.Stmt{
+		&ast.AssignStmt{Lhs: []ast.Expr{ast.NewIdent(iv), ast.NewIdent(vv), ast.NewIdent(okv)}, Tok: token.DEFINE, Rhs: []ast.Expr{call}},
+		&ast.AssignStmt{Lhs: []ast.Expr{ast.NewIdent("_"), ast.NewIdent("_")}, Tok: token.ASSIGN, Rhs: []ast.Expr{ast.NewIdent(vv), ast.NewIdent(okv)}},
+		&ast.SwitchStmt{Tag: ast.NewIdent(iv), Body: &ast.BlockStmt{List: clauses}},
+	}}
+}
+
 func (r *rewriter) rewriteFile(f *ast.File) {
 	// package sync and sync/atomic are replaced by shims whose operations are scheduling points.
 	for _, im := range f.Imports {
@@ -168,7 +261,13 @@ func (r *rewriter) rewriteFile(f *ast.File) {
 		}
 		switch n := c.Node().(type) {
 		case *ast.SelectStmt:
-			r.rep.Unowned = append(r.rep.Unowned, "select at "+r.site(n.Pos()))
+			_, labelled := c.Parent().(*ast.LabeledStmt)
+			if repl := r.rewriteSelect(n); repl != nil && !labelled {
+				r.rep.ChanOps = append(r.rep.ChanOps, "select "+r.site(n.Pos()))
+				c.Replace(repl)
+			} else {
+				r.rep.Unowned = append(r.rep.Unowned, "select at "+r.site(n.Pos()))
+			}
 		case *ast.GoStmt:
 			r.rep.GoStmts = append(r.rep.GoStmts, r.site(n.Pos()))
 			lit := &ast.FuncLit{
